@@ -453,7 +453,12 @@ func findLeafrefTarget(from Meta, path string) Definition {
 }
 
 func inheritFromTypedef(parent Leafable, tdef *Typedef) {
-	if !parent.HasDefault() {
+	// RFC7950 Sec 7.6.1 - the default of the type is the leaf's default unless the leaf is mandatory
+	mandatory := false
+	if hm, canBe := parent.(interface{ Mandatory() bool }); canBe {
+		mandatory = hm.Mandatory()
+	}
+	if !parent.HasDefault() && !mandatory {
 		if tdef.HasDefault() {
 			parent.setDefaultValue(tdef.DefaultValue())
 		}
